@@ -124,6 +124,10 @@ def run_case(c):
         if r is not out:
             raise RuntimeError("out= result is not the out array")
         return r
+    if op == "npreduce":
+        ax = c["axis"]
+        ax = None if ax is None else (tuple(ax) if len(ax) > 1 else ax[0])
+        return getattr(np, c["fn"])(A[0], axis=ax)
     if op == "einsum":
         s = ",".join("..." + subs(l) for l in c["labels"]) + "->..." + subs(c["out"])
         return np.einsum(s, *A)
@@ -306,7 +310,16 @@ def main():
     if req.get("real_fields"):
         real = real_field_checks(req["real_fields"])
     sweep = field_sweep_checks(req["field_sweeps"]) if req.get("field_sweeps") else None
-    json.dump({"results": out, "real_fields": real, "field_sweeps": sweep}, sys.stdout)
+    missing = None
+    if req.get("reference_reducers"):
+        # which reference reduction functions does the implementation's dispatch table NOT contain
+        # (membership of function OBJECTS: np.max and np.amax may or may not be the same object)
+        try:
+            from EasyFEA.FEM import _linalg as L
+            missing = [n for n in req["reference_reducers"] if getattr(np, n) not in L._REDUCERS]
+        except Exception as ex:
+            missing = ["<_REDUCERS not readable: %s>" % ex]
+    json.dump({"results": out, "real_fields": real, "field_sweeps": sweep, "missing_reducers": missing}, sys.stdout)
 
 
 def field_sweep_checks(spec):
@@ -556,6 +569,15 @@ def _extra_oracle(c):
         if kinds[0] == "fe" and j >= 2:
             return _obs(1, _per_point(arrs, kinds, lambda t: normalize(t, j - 2)))
         return _obs(1 if kinds[0] == "fe" else 0, normalize(x, j))
+    if op == "npreduce":
+        # any numpy reduction function called as np.<f>(fe, axis=...): the value is numpy's on the plain
+        # array, the type is a FeArray exactly when every reduced axis is a tensor axis
+        x = arrs[0]
+        ax = c["axis"]
+        axn = None if ax is None else (tuple(ax) if len(ax) > 1 else ax[0])
+        want = np.asarray(getattr(np, c["fn"])(x, axis=axn))
+        keeps = ax is not None and all((a if a >= 0 else a + x.ndim) >= 2 for a in ax) and want.ndim >= 2
+        return _obs(1 if (kinds[0] == "fe" and keeps) else 0, want)
     if op == "reduce":
         x = arrs[0]
         f = getattr(np, RED[c["code"]])
@@ -598,7 +620,7 @@ def loop_oracle(c):
     op = c["op"]
     if op in ("Det", "Inv", "Trace"):
         return _matfun_oracle(c)
-    if op in ("TensorProd", "Norm", "Normalize", "reduce", "concat", "stack", "swapaxes", "linalg", "inplace", "out"):
+    if op in ("TensorProd", "Norm", "Normalize", "reduce", "npreduce", "concat", "stack", "swapaxes", "linalg", "inplace", "out"):
         try:
             with np.errstate(all="ignore"):
                 return _extra_oracle(c)
